@@ -274,3 +274,26 @@ def _(v):
     v.prove("reverse_pair_needs_the_inactive_parts_swapped_too", mk([fw, bw_swapped], "ABS").identify_equilibria() == [(0, 1)] and mk([fw, bw_not], "ABS").identify_equilibria() == [])
     idx = [rs.as_substance_index(k) for k in ("C", "A", "B")]
     v.prove("index_of_a_key_is_its_position", idx == [0, 1, 2])
+
+
+@harness("C15", "per_substance_array_size", functions=["chempy.reactionsystem:ReactionSystem.as_per_substance_array", "chempy.reactionsystem:ReactionSystem.upper_conc_bounds"], kind="data")
+def _(v):
+    """'per-substance arrays … convert into each other in substance order': a container whose length is not the number of substances is no
+    per-substance array and is refused (ValueError) whatever its type -- float arrays, integer arrays, lists, tuples -- so that the elemental
+    bounds are never computed from a truncated state; a right-sized one comes back with the same numbers"""
+    import numpy as np
+    from chempy.reactionsystem import ReactionSystem
+    rs = ReactionSystem.from_string("2 H2O2 -> 2 H2O + O2\nH2O -> H+ + OH-")
+    n = rs.ns
+    accepted = []
+    for cont in (np.arange(n - 1, dtype=float), np.arange(n + 1, dtype=float), np.arange(n - 1), list(range(n + 2)), tuple(float(i) for i in range(n - 2)), np.zeros(0)):
+        for fn in (rs.as_per_substance_array, rs.upper_conc_bounds):
+            try:
+                accepted.append((type(cont).__name__, len(cont), fn.__name__, repr(fn(cont))[:60]))
+            except ValueError:
+                pass
+            except Exception as ex:
+                accepted.append((type(cont).__name__, len(cont), fn.__name__, repr(ex)[:60]))
+    v.prove("wrong_size_refused", not accepted, detail=repr(accepted[:3]))
+    ok = all(list(rs.as_per_substance_array(c)) == [float(i) for i in range(n)] for c in (np.arange(n, dtype=float), np.arange(n), list(range(n)), tuple(range(n))))
+    v.prove("right_size_same_numbers", ok)
